@@ -21,6 +21,8 @@ func propC18(r *Report, tier string) {
 	ruleGeoStepAgreement(r, "K11-geo-precision-step")
 	ruleScratchResetBeforeVisit(r, "K5-scratch-reset-before-visit", "search/searcher")
 	ruleFilteringWrappersFilterEveryResult(r, "K5-filter-wrapper-filters-every-result")
+	ruleFullPrecisionDecodeNeedsShiftZero(r, "K11-decode-only-shift-zero", "search/searcher", "search/facet")
+	ruleGeoPointTermsOneIndexer(r, "K12-geopoint-terms-one-indexer")
 	ruleAxisDiscipline(r, "K11-axis-discipline", "geo", "search/searcher", "search/query", "search")
 	r.Floor("K15-visitor-latch", 4)
 	r.Floor("K5-geo-post-filter", 4)
